@@ -60,7 +60,7 @@ func (x *c09World) Enabled() []bfs.Op {
 		}
 	}
 	ops = append(ops, bfs.Op{Name: "List"}, bfs.Op{Name: "Signers"})
-	o("Add", "y.touch", "K1", "y.nonce", "y.inagent", "n.missing", "n.free", "y.default", "n.inconsistent", "n.empty", "y.tlsudo", "y.headless", "n.ver2")
+	o("Add", "y.touch", "K1", "y.nonce", "y.inagent", "n.missing", "n.free", "y.default", "n.inconsistent", "n.empty", "y.tlsudo", "y.headless", "n.ver2", "n.noprins", "n.nohw")
 	o("AddHardCert", "h1", "y.touch", "h2")
 	o("Sign", "y.touch", "K1", "n.missing", "h1", "y.nonce", "n.free", "y.inagent")
 	o("Remove", "y.touch", "K1", "h1", "n.free")
@@ -244,12 +244,12 @@ func checkC09(c *ev.Ctx) {
 			c.Violation("C09:harness:fixture", "fixture "+n+" does not decode as a YSSHCA KeyID", nil)
 		}
 	}
-	for _, n := range []string{"n.missing", "n.ver2", "n.inconsistent", "n.free", "n.empty"} {
+	for _, n := range []string{"n.missing", "n.ver2", "n.inconsistent", "n.free", "n.empty", "n.noprins", "n.nohw"} {
 		if idents[n].ysshca {
 			c.Violation("C09:harness:fixture", "near-miss fixture "+n+" decodes as a YSSHCA KeyID", nil)
 		}
 	}
-	c.Rule("E1 BFS, two real shims (no-upstream on/off) driven in lock-step over identical underlying agents: Add(12: YSSHCA KeyIDs of every type, near misses missing-field/version-2/inconsistent, free text, empty, plain key), AddHardCert(3, one equal to an underlying YSSHCA certificate), Remove(4), RemoveAll, List, Signers, Sign(7), certificates added behind the shim's back; roots = all 16 subsets of a 4-identity generating set as initial contents, plus 8 used servers (a pre-history of add + listing applied after construction); oracle: absolute multiset formulas against ground truth and the reflected memory table in both modes. non-trivial = listing with >=1 hidden certificate, or sign/remove naming a hidden certificate; distinct by (operation, underlying set, memory set)")
+	c.Rule("E1 BFS, two real shims (no-upstream on/off) driven in lock-step over identical underlying agents: Add(14: YSSHCA KeyIDs of every type, near misses (three different missing fields, version 2, inconsistent), free text, empty, plain key), AddHardCert(3, one equal to an underlying YSSHCA certificate), Remove(4), RemoveAll, List, Signers, Sign(7), certificates added behind the shim's back; roots = all 16 subsets of a 4-identity generating set as initial contents, plus 8 used servers (a pre-history of add + listing applied after construction); oracle: absolute multiset formulas against ground truth and the reflected memory table in both modes. non-trivial = listing with >=1 hidden certificate, or sign/remove naming a hidden certificate; distinct by (operation, underlying set, memory set)")
 	c.Assume("Y(x) is the property's own definition: keyid.Unmarshal accepts x.KeyId (evaluated once per fixture)", "both worlds are built from the same fixtures")
 	gen := []string{"K1", "y.touch", "n.missing", "y.inagent"}
 	var roots []string
